@@ -99,16 +99,45 @@ def start_bounded(spec, prop_id, tier, seed):
     if not b:
         return None
     import subprocess, tempfile
-    fd, out = tempfile.mkstemp(prefix="e3_%s_" % prop_id, suffix=".json")
-    os.close(fd)
-    cmd = ["/venv/bin/python", os.path.join(VERIF, "e3", b["module"]), "--tier", tier, "--seed", str(seed), "--out", out] + list(b.get("args", []))
-    env = dict(os.environ)
-    env["PYTHONWARNINGS"] = "ignore"
-    log = open(out + ".log", "w")
-    return subprocess.Popen(cmd, cwd=VERIF, stdout=log, stderr=subprocess.STDOUT, env=env), out
+    handles = []
+    for bb in (b if isinstance(b, list) else [b]):
+        fd, out = tempfile.mkstemp(prefix="e3_%s_" % prop_id, suffix=".json")
+        os.close(fd)
+        cmd = ["/venv/bin/python", os.path.join(VERIF, "e3", bb["module"]), "--tier", tier, "--seed", str(seed), "--out", out] + list(bb.get("args", []))
+        env = dict(os.environ)
+        env["PYTHONWARNINGS"] = "ignore"
+        if REPO != "/repo":
+            env["PYTHONPATH"] = REPO      # the bounded stand-in must import the same tree the obligations were generated from
+        log = open(out + ".log", "w")
+        handles.append((subprocess.Popen(cmd, cwd=VERIF, stdout=log, stderr=subprocess.STDOUT, env=env), out, bb["module"]))
+    return handles
 
 
-def finish_bounded(handle, timeout_s):
+def finish_bounded(handles, timeout_s):
+    merged, errs = None, []
+    for h in handles:
+        res, err = _finish_one(h[:2], timeout_s)
+        if err:
+            errs.append("%s: %s" % (h[2], err))
+        if res is None:
+            continue
+        if merged is None:
+            merged = dict(res)
+            merged["modules"] = [h[2]]
+            continue
+        merged["modules"].append(h[2])
+        merged["lattice"] = "%s  ||  %s" % (merged.get("lattice"), res.get("lattice"))
+        merged["cases"] = int(merged.get("cases") or 0) + int(res.get("cases") or 0)
+        merged["distinct_nontrivial"] = int(merged.get("distinct_nontrivial") or 0) + int(res.get("distinct_nontrivial") or 0)
+        merged["rule"] = "%s  ||  %s" % (merged.get("rule"), res.get("rule"))
+        merged["failures"] = list(merged.get("failures", [])) + list(res.get("failures", []))
+        merged["samples"] = list(merged.get("samples", []))[:4] + list(res.get("samples", []))[:3]
+        merged["wall_s"] = (merged.get("wall_s") or 0) + (res.get("wall_s") or 0)
+        merged["exceptions"] = list(merged.get("exceptions") or []) + list(res.get("exceptions") or [])
+    return merged, ("; ".join(errs) if errs else None)
+
+
+def _finish_one(handle, timeout_s):
     proc, out = handle
     res = None
     err = None
@@ -193,6 +222,66 @@ def run_check(prop_id, tier="quick", seed=0):
                 jobs.append((v["smt2"], 5, False, True))
                 meta.append((g["key"], dict(name=v["name"], kind="vacuity", func=g["key"][1], tags=[], note="must be satisfiable", lineno=None)))
         results = pool.map(_solve_worker, jobs, chunksize=1)
+    # ---- E2 store scan (syntactic, whole package) against the declared frames
+    scan_spec = spec.get("store_scan")
+    if scan_spec:
+        from vc import storescan
+        declared = json.load(open(os.path.join(VERIF, "contracts", "frames.json")))
+        found = storescan.summary(REPO)
+        for fn_key in sorted(found):
+            area = fn_key.split("/")[1] if "/" in fn_key else ""
+            for cls in found[fn_key]:
+                kindc = cls.split(":")[0]
+                if not scan_spec(area, kindc):
+                    continue
+                ok = cls in declared.get(fn_key, [])
+                ob = dict(name="store_scan.%s.%s" % (fn_key.replace("aquacrop/", ""), cls), kind="store_scan", func=fn_key, tags=[prop_id], lineno=None,
+                          note="store class %s in %s must be part of the declared frame (contracts/frames.json)" % (cls, fn_key))
+                meta.append((("<scan>", fn_key), ob))
+                results.append(dict(verdict="unsat" if ok else "sat", stage=0, backend="store-scan", time=0.0, attempts=[("syntactic store scan", "declared" if ok else "NOT declared", 0.0)],
+                                    stats={}, model={"function": fn_key, "store_class": cls}))
+    # ---- lemma library (wsum lemmas used as rewrites / hypotheses), re-proved by induction on this run
+    if spec.get("lemmas"):
+        from vc import lemmas
+        for lname, verdict in lemmas.check_all():
+            ob = dict(name="lemma." + lname, kind="lemma", func="lemma library", tags=[prop_id], lineno=None, note="induction VC of the spec-sum lemma library")
+            meta.append((("<lemmas>", lname), ob))
+            results.append(dict(verdict="unsat" if verdict == "unsat" else "unknown", stage=2, backend="z3", time=0.0, attempts=[("z3 (quantified induction VC)", verdict, 0.0)], stats={}, model=None))
+    # ---- catalogue obligation: the static valid_crop clauses evaluated for every built-in crop (exhaustive)
+    if spec.get("catalogue"):
+        import subprocess as _sp2
+        pr2 = _sp2.run(["python3-vt", "-c", "import json,sys; sys.path.insert(0, %r); from vc import catalogue; print(json.dumps(catalogue.main()))" % VERIF],
+                       cwd=VERIF, capture_output=True, text=True, timeout=1200, env=dict(os.environ, PYTHONPATH=VERIF))
+        try:
+            cat = json.loads(pr2.stdout.strip().splitlines()[-1])
+        except Exception:
+            cat = None
+            print("CHECKER-ERROR catalogue obligation did not run: %s" % pr2.stderr[-400:])
+        if cat is not None:
+            import re as _re
+            nclause = cat["clauses_checked"]
+            for crop, bad in sorted(cat["violations"].items()):
+                for cl in bad:
+                    fld = _re.search(r"C\.([A-Za-z_0-9]+)", cl)
+                    ob = dict(name="catalogue.valid_crop.%s.%s" % (crop, fld.group(1) if fld else "clause"), kind="catalogue", func="crop_params", tags=[prop_id], lineno=None,
+                              note="built-in crop %s violates the assumed crop precondition `%s`" % (crop, cl))
+                    meta.append((("<catalogue>", crop), ob))
+                    results.append(dict(verdict="sat", stage=0, backend="catalogue", time=0.0, attempts=[("concrete evaluation", "false", 0.0)], stats={}, model={"crop": crop, "clause": cl}))
+                ob = dict(name="catalogue.valid_crop.%s.all_other_clauses" % crop, kind="catalogue", func="crop_params", tags=[prop_id], lineno=None,
+                          note="%d static valid_crop clauses hold for %s" % (nclause - len(bad), crop))
+                meta.append((("<catalogue>", crop), ob))
+                results.append(dict(verdict="unsat", stage=0, backend="catalogue", time=0.0, attempts=[("concrete evaluation of %d clauses" % (nclause - len(bad)), "true", 0.0)], stats={}, model=None))
+    # ---- engine-vs-CPython cross-check (the interpreter that builds the VCs, run concretely on captured real calls)
+    cross = None
+    if spec.get("crosscheck"):
+        try:
+            import subprocess as _sp
+            pr = _sp.run(["python3-vt", "-m", "vc.crosscheck"], cwd=VERIF, capture_output=True, text=True, timeout=3000,
+                         env=dict(os.environ, PYTHONPATH=VERIF))
+            lines = [l for l in pr.stdout.splitlines() if l.strip()]
+            cross = dict(exit=pr.returncode, summary=lines[-1] if lines else "", per_function=lines[:-1][:40])
+        except Exception as e:
+            cross = dict(exit=3, summary="cross-check failed to run: %r" % (e,), per_function=[])
     findings, fixed = read_known_findings()
     tool_limits = [(g["key"], g["tool_limit"]) for g in gens if g.get("tool_limit")]
     errors = [(g["key"], g["error"]) for g in gens if g.get("error")]
@@ -273,7 +362,7 @@ def run_check(prop_id, tier="quick", seed=0):
                     path = os.path.join("replays", "%s__bounded__%s.json" % (prop_id, safe))
                     with open(os.path.join(VERIF, path), "w") as fh:
                         json.dump(dict(property=prop_id, kind="bounded-case", signature=sig, clause=fl.get("clause"), detail=fl.get("detail"),
-                                       repro=fl.get("repro"), module=spec["bounded"]["module"], confirmed=True,
+                                       repro=fl.get("repro"), module=str((bounded_res or {}).get("modules")), confirmed=True,
                                        how="observed on the real model by the bounded stand-in (E3)"), fh, indent=1, default=str)
                     bounded_viol.append((fl, path))
     printed = set()
@@ -305,6 +394,9 @@ def run_check(prop_id, tier="quick", seed=0):
                                               return_paths=g["returns"], merged_diamonds=g["merges"], dead_paths=g["dead_paths"],
                                               generation_s=round(g["gen_time"], 2), tool_limit=g.get("tool_limit")) for g in gens],
             "backends": backends, "solver_time_s": round(solver_time, 2),
+            "cvc5_crosscheck": ({"unsat_confirmed": sum(1 for r in results if r.get("cvc5") == "unsat"),
+                                 "cvc5_unknown_or_timeout": sum(1 for r in results if r.get("cvc5") == "unknown"),
+                                 "disagreements": sum(1 for r in results if r.get("cvc5") == "sat")} if both else "thorough tier only"),
             "refuted": [o["name"] for _, o, _ in refuted], "undecided": unknown, "solver_errors": solver_errors,
             "known_findings_matched": [h.get("obligation") for h, _, _ in known_hits],
             "vacuity": {"checked": sum(1 for (_, o) in meta if o["kind"] == "vacuity"), "vacuous": vacuous, "dead_return_paths": dead_returns},
@@ -314,8 +406,9 @@ def run_check(prop_id, tier="quick", seed=0):
             "samples": [dict(name=p["name"], verdict=p["verdict"], backend=p["backend"], time=p["time"]) for p in per_ob[:12]],
             "per_obligation": per_ob,
             "explanation": spec.get("explanation", ""),
+            "engine_cross_check": cross if cross is not None else "run by the C16 check (./vcheck crosscheck)",
             "bounded": (dict(note="BOUNDED stand-in (E3), never counted as proved: contract clauses evaluated on real model runs over an enumerated finite input set",
-                             module=spec["bounded"]["module"], lattice=(bounded_res or {}).get("lattice"), cases=(bounded_res or {}).get("cases"),
+                             module=str((bounded_res or {}).get("modules")), lattice=(bounded_res or {}).get("lattice"), cases=(bounded_res or {}).get("cases"),
                              distinct_nontrivial=(bounded_res or {}).get("distinct_nontrivial"), rule=(bounded_res or {}).get("rule"),
                              failures=[f.get("signature") for f in (bounded_res or {}).get("failures", [])],
                              known_findings_matched=sorted({h.get("signature") for h, _ in bounded_known}),
@@ -345,6 +438,9 @@ def run_check(prop_id, tier="quick", seed=0):
         return 1
     if bounded_err:
         print("CHECKER-ERROR bounded stand-in: %s" % bounded_err)
+        return 3
+    if cross is not None and cross.get("exit") not in (0,):
+        print("CHECKER-ERROR engine cross-check: %s" % cross.get("summary"))
         return 3
     if bounded_res is not None and bounded_res.get("exceptions"):
         print("NOTE bounded stand-in harness notes: %s" % str(bounded_res.get("exceptions"))[:300])
